@@ -226,8 +226,9 @@ Definition step_thread (cfg : config) (s : state) (l : label) (t : thread) : opt
       | Some d => Some (set_thr (start_target s d) l (goto (goto_start cfg l (S i))))
       end
   | PPublish =>
+      (* the walk starts with a fresh visited set: checkDeps(targets, map[*target]struct{}{}) *)
       Some (set_thr (set_waiting s l (Some (deps cfg l))) l
-                    (goto (walk_goto cfg l (walk_next l [] [deps cfg l]))))
+                    (mkThread (walk_goto cfg l (walk_next l [] [deps cfg l])) (t_res t) []))
   | PWalk d fr =>
       let seen' := d :: t_seen t in
       let fr' := match waiting s d with Some ds => ds :: fr | None => fr end in
